@@ -65,7 +65,8 @@ Section Graph.
   Definition compose (g h : graph) : graph :=
     add_edges (add_nodes (add_edges (add_nodes g_empty (nodes g)) (edges g)) (nodes h)) (edges h).
 
-  (* nx.relabel_nodes(G, {old: new}, copy=False) *)
+  (* nx.relabel_nodes(G, {old: new}, copy=False): used by replace_task before /repo 4400919; kept as the
+     documented in-place variant (regression examples) *)
   Definition relabel1 (g : graph) (old new : A) : graph :=
     if negb (has_node g old) then g else
     let g1 := add_node g new in
@@ -73,6 +74,14 @@ Section Graph.
     let ne := map (fun t => (new, if eqb old t then new else t)) (succ g1 old)
               ++ map (fun s => (if eqb old s then new else s, new)) (pred g1 old) in
     add_edges (remove_node g1 old) ne.
+
+  (* nx.relabel_nodes(G, {old: new}, copy=True) = _relabel_copy: H = G.__class__();
+     H.add_nodes_from(mapping.get(n, n) for n in G); H.add_edges_from((m n1, m n2) for n1, n2 in G.edges).
+     Node positions are kept; predecessor lists are rebuilt in G.edges order. *)
+  Definition ren (old new x : A) : A := if eqb x old then new else x.
+  Definition relabel_copy (g : graph) (old new : A) : graph :=
+    add_edges (add_nodes g_empty (map (ren old new) (nodes g)))
+              (map (fun e => (ren old new (fst e), ren old new (snd e))) (edges g)).
 
   Definition out_deg0 (g : graph) (n : A) : bool := match succ g n with [] => true | _ => false end.
   Definition in_deg0 (g : graph) (n : A) : bool := match pred g n with [] => true | _ => false end.
@@ -149,29 +158,31 @@ Fixpoint sval_eqb (a b : sval) : bool :=
   | _, _ => false
   end.
 
-(* Task objects are hashed by identity.  [tid] is the identity of the object the user created;
-   Task.replace() makes a new object: same tid, generation + 1. *)
+(* Task objects are hashed by identity.  [tid] names the object the user created (Task.replace keeps
+   the name), [tuid] is the identity of the object itself: the user's tasks have tuid = tid, every
+   Task.replace() makes an object with a fresh tuid taken from a counter. *)
 Record task := mkTask {
-  tid : positive; tgen : nat; tfun : positive; tinputs : list sval;
+  tid : positive; tuid : positive; tfun : positive; tinputs : list sval;
   tctx : bool   (* first parameter of the function is called 'context' *)
 }.
 
 Definition task_eqb (a b : task) : bool :=
-  Pos.eqb (tid a) (tid b) && Nat.eqb (tgen a) (tgen b) && Pos.eqb (tfun a) (tfun b)
+  Pos.eqb (tid a) (tid b) && Pos.eqb (tuid a) (tuid b) && Pos.eqb (tfun a) (tfun b)
   && list_eqb sval_eqb (tinputs a) (tinputs b) && Bool.eqb (tctx a) (tctx b).
 
 Definition tgraph := graph task.
 Definition tmem := mem task task_eqb.
 
-(* task.replace(task_input=inp) *)
-Definition task_replace (t : task) (inp : list sval) : task :=
-  mkTask (tid t) (S (tgen t)) (tfun t) inp (tctx t).
+(* task.replace(task_input=inp): a new object *)
+Definition task_replace (t : task) (inp : list sval) (u : positive) : task :=
+  mkTask (tid t) u (tfun t) inp (tctx t).
 
 (* ---- WorkflowBuilder ------------------------------------------------------------------------ *)
 Definition add_task (g : tgraph) (t : task) (ps : list task) : tgraph :=
   fold_left (fun g p => add_edge task task_eqb g p t) ps (add_node task task_eqb g t).
 
-Definition replace_task (g : tgraph) (t new : task) : tgraph := relabel1 task task_eqb g t new.
+(* replace_task: self._g = nx.relabel_nodes(self._g, {task: new_task}, copy=True)   (/repo 4400919) *)
+Definition replace_task (g : tgraph) (t new : task) : tgraph := relabel_copy task task_eqb g t new.
 
 Definition output_tasks (g : tgraph) : list task := output_nodes task g.
 Definition input_tasks (g : tgraph) : list task := input_nodes task g.
@@ -196,17 +207,25 @@ Definition builder_plus (g other : tgraph) : tgraph := compose task task_eqb g o
 (* Workflow(builder) = freeze(builder._g.copy());  WorkflowBuilder(workflow) = workflow._g.copy() *)
 Definition workflow_of (g : tgraph) : tgraph := copy task task_eqb g.
 
-(* insert_context(wb, context) *)
-Definition insert_context (g : tgraph) (ctx : sval) : tgraph :=
-  fold_left (fun g t => if tctx t then replace_task g t (task_replace t (ctx :: tinputs t)) else g)
-            (nodes g) g.
+(* insert_context(wb, context); [next] = the next unused object identity; returns the new counter too *)
+Definition insert_context_from (g : tgraph) (ctx : sval) (next : positive) : tgraph * positive :=
+  fold_left (fun (st : tgraph * positive) t =>
+               if tctx t
+               then (replace_task (fst st) t (task_replace t (ctx :: tinputs t) (snd st)), Pos.succ (snd st))
+               else st)
+            (nodes g) (g, next).
+Definition insert_context (g : tgraph) (ctx : sval) (next : positive) : tgraph :=
+  fst (insert_context_from g ctx next).
 
 (* execute_workflow: wb = WorkflowBuilder(workflow); every task replaced by task.replace(task_input=
    same inputs); insert_context(wb, context); workflow = Workflow(wb) *)
-Definition exec_prepare (g : tgraph) (ctx : sval) : tgraph :=
-  let wb := copy task task_eqb g in
-  let wb1 := fold_left (fun wb t => replace_task wb t (task_replace t (tinputs t))) (nodes g) wb in
-  workflow_of (insert_context wb1 ctx).
+Definition exec_copies (g : tgraph) (next : positive) : tgraph * positive :=
+  fold_left (fun (st : tgraph * positive) t =>
+               (replace_task (fst st) t (task_replace t (tinputs t) (snd st)), Pos.succ (snd st)))
+            (nodes g) (copy task task_eqb g, next).
+Definition exec_prepare (g : tgraph) (ctx : sval) (next : positive) : tgraph :=
+  let st := exec_copies g next in
+  workflow_of (insert_context (fst st) ctx (snd st)).
 
 (* ---- Workflow.as_dask_dict ------------------------------------------------------------------ *)
 Definition results : positive := 1%positive.     (* the string 'results' *)
@@ -358,14 +377,23 @@ Section Exec.
     | _ => RNoSingleSink
     end.
 
+  (* the DECLARED meaning of a workflow executed with a context: the tasks themselves, in their own
+     order; a task whose function asks for the context receives it first, then its static inputs,
+     then the results of its predecessors in the order of the predecessor list *)
+  Definition decl_inputs (ctx : sval) (t : task) : list sval := if tctx t then ctx :: tinputs t else tinputs t.
+  Definition decl_comp (ctx : sval) (g : tgraph) (t : task) (c : task -> sval) : sval :=
+    apply (tfun t) (decl_inputs ctx t ++ map c (pred g t)).
+  Definition declared_eval (ctx : sval) (g : tgraph) (order : list task) : option (cache task sval) :=
+    run task sval task_eqb dflt_sval (pred g) (decl_comp ctx g) order [].
+
   (* execute_workflow(workflow, dispatcher=local_dask (threaded), context=ctx) *)
-  Definition execute_log (g : tgraph) (ctx : sval) (ids : task -> positive) : result * list event :=
-    match as_dask_dict (exec_prepare g ctx) ids with
+  Definition execute_log (g : tgraph) (ctx : sval) (next : positive) (ids : task -> positive) : result * list event :=
+    match as_dask_dict (exec_prepare g ctx next) ids with
     | Some d => dask_get_log d results
     | None => (RNoSingleSink, [])
     end.
-  Definition execute (g : tgraph) (ctx : sval) (ids : task -> positive) : result :=
-    fst (execute_log g ctx ids).
+  Definition execute (g : tgraph) (ctx : sval) (next : positive) (ids : task -> positive) : result :=
+    fst (execute_log g ctx next ids).
 End Exec.
 
 (* ================================================================================= guards *)
@@ -389,8 +417,8 @@ Definition g_static_nokey (g : tgraph) (ids : task -> positive) : bool :=
 Definition g_static_nocall (g : tgraph) : bool :=
   forallb (fun t => forallb (fun a => negb (has_call_tuple a)) (tinputs t)) (nodes g).
 
-(* in no predecessor list does a context-taking task come before a task that takes no context
-   (insert_context moves the context-taking tasks behind all the others) *)
+(* (informational, no guard since /repo 4400919) in no predecessor list does a context-taking task come
+   before a task that takes no context *)
 Fixpoint ctx_last (l : list task) : bool :=
   match l with
   | [] => true
@@ -399,3 +427,5 @@ Fixpoint ctx_last (l : list task) : bool :=
 Definition g_ctx_order (g : tgraph) : bool := forallb (fun t => ctx_last (pred g t)) (nodes g).
 
 Definition nodup_tids (l : list task) : bool := nodupp (map tid l).
+(* every object identity in the graph is older than [next] *)
+Definition uids_below (next : positive) (g : tgraph) : bool := forallb (fun t => Pos.ltb (tuid t) next) (nodes g).
